@@ -172,7 +172,7 @@ def replay(ctx, rec):
         print(f"pattern {e}: decoded info bits set: {ones(d)}")
         bad += 1 if d.any() else 0
     if bad:
-        print(f"VIOLATION property=C02 replay=(given) {bad} patterns still mis-decode")
+        print(f"VIOLATION property=C02 replay={rec.get('path', '(given)')} {bad} patterns still mis-decode")
         return 1
     print("replay: patterns decode correctly")
     return 0
